@@ -276,9 +276,16 @@ def _c10_probe(st, target, sign, rng):
         tab[key] = [[lo + (hi - lo) * v / max(fmax, 1) for v in row] for row in f]
         const = lo + (hi - lo) * f[0][0] / max(fmax, 1)
         V = V + 6.0 if len(ys) == 1 else V
-    if I <= 1e-4 or V <= 1.2:
+    noload = False
+    if I <= 1e-4 and key == "ig" and V > 1.2 and kind != "Rectifier":
+        noload, I = True, 0.0            # X is a leaf: its ground current is the table value at (0, Vin)
+    elif I <= 1e-4 or V <= 1.2:
         return None
     V = sign * V
+    if key == "ig" and rng.random() < 0.25:
+        # nano-ampere ground currents: the rows of the table differ by less than 1e-8 A, and still differ
+        tab[key] = [[v * 1e-5 for v in row] for row in tab[key]]
+        const = const * 1e-5
     # the sign of tabulated coordinates is ignored and the vi rows may come in any order (the table is a scatter)
     form = rng.choice(["plain", "plain", "negaxis", "descending"]) if len(ys) > 1 else "plain"
     if form == "negaxis":
@@ -292,7 +299,8 @@ def _c10_probe(st, target, sign, rng):
         flat = len({v for r in f for v in r}) == 1        # (a table of equal entries stays one: it is compared with the constant)
         row3 = [const for _ in xs] if flat else [lo + (hi - lo) * rng.random() for _ in xs]
         vis = [vi_of(y) for y in ys] + [y3]
-        rows = [[lo + (hi - lo) * v / max(fmax, 1) for v in r] for r in f] + [row3]
+        scale = tab[key][0][0] / (lo + (hi - lo) * f[0][0] / max(fmax, 1))      # (1e-5 for a nano-ampere table)
+        rows = [list(r) for r in tab[key]] + [[v if flat else v * scale for v in row3]]
         order = rng.choice([[1, 2, 0], [2, 0, 1], [1, 0, 2], [0, 2, 1]])
         tab["vi"] = [vis[k] for k in order]
         tab[key] = [rows[k] for k in order]
@@ -324,7 +332,8 @@ def _c10_probe(st, target, sign, rng):
             else:
                 s = System("probe", C.Source("S", vo=V))
                 s.add_comp("S", comp=make(p))
-            s.add_comp("X", comp=C.ILoad("L", ii=I))
+            if not noload:
+                s.add_comp("X", comp=C.ILoad("L", ii=I))
         return s
     return system(tab), (system(const) if len({v for r in f for v in r}) == 1 else None)
 
@@ -357,6 +366,7 @@ def run_c10(ctx):
             continue
         s, sconst = pr
         c = drv_solve.solve_case(s, len(cases))
+        c["args"]["probe"] = True
         c["target"] = target
         cases.append(c)
         onx = any(2 * x == st["qx"] for x in st["xs"])
